@@ -355,6 +355,20 @@ impl Visitor<Diagnostic> for LibraryRenderer {
         Ok(())
     }
 
+    // 2.3.3.1
+    fn visit_enumerated_value(
+        &mut self,
+        node: &EnumeratedValue,
+    ) -> Result<Self::Value, Diagnostic> {
+        if let Some(type_name) = &node.type_name {
+            self.visit_type(type_name)?;
+            self.write("#");
+            self.write(node.value.original().as_str());
+            return Ok(());
+        }
+        self.visit_id(&node.value)
+    }
+
     fn visit_subrange_declaration(
         &mut self,
         node: &SubrangeDeclaration,
